@@ -6,7 +6,8 @@ accesses, the innermost frame that belongs to either the repository (/repo/) or
 the harness (/verif/) is a repository frame.  Anything else is harness noise
 (=> INCONCLUSIVE).  Reports are de-duplicated by the pair of owning functions.
 """
-import re, sys
+import os, re, sys
+REPO = os.environ.get("VERIF_REPO", "/repo").rstrip("/") + "/"
 
 prop, out = sys.argv[1], sys.argv[2]
 files = sys.argv[3:]
@@ -35,7 +36,7 @@ def accesses(block):
 
 def owner(stack):
     for fn, path in stack:
-        if path.startswith("/repo/"):
+        if path.startswith(REPO):
             return ("repo", fn)
         if path.startswith("/verif/"):
             return ("harness", fn)
